@@ -52,6 +52,9 @@ int64_t carquet_column_read_batch(
         return 0;
     }
 
+    /* Byte-array values of the previous call are no longer guaranteed */
+    carquet_column_reader_release_retired(reader);
+
     if (reader->values_remaining <= 0) {
         return 0;
     }
